@@ -132,6 +132,7 @@ void eb_norm_sim(eb_t *r, const eb_t *t, int n) {
 		for (int i = 0; i < n; i++) {
 			fb_copy(r[i]->x, t[i]->x);
 			fb_copy(r[i]->y, t[i]->y);
+			r[i]->coord = t[i]->coord;
 			if (!eb_is_infty(t[i])) {
 				fb_copy(r[i]->z, a[i]);
 			}
